@@ -321,7 +321,8 @@ def gen_op(rng, tables, optional=True):
         if len(anycols) >= 2 and rng.random() < 0.3:
             # new names that are old names of other mapped columns: a swap, or a chain a->b, b->c
             a, b = rng.sample(anycols, 2)
-            mp = {a: b, b: a} if rng.random() < 0.5 else {a: b, b: b + "_r"}
+            # (never a new name that another column already carries: two columns of one name have no defined meaning)
+            mp = {a: b, b: a} if (rng.random() < 0.5 or b + "_r" in cols) else {a: b, b: b + "_r"}
         if not mp:
             return None
         ign = rng.random() < 0.5
